@@ -106,6 +106,14 @@ def c01_classify(inp, out):
     return ks
 
 
+def c12_classify(inp, out):
+    ks = ["mode:" + inp.split("|")[0]]
+    for c in out.split(" || ")[0].split(" ; "):
+        ks.append("call:" + c.split("(")[0])
+    ks.append("scan:" + out.split("scan=")[-1].split(" ")[0])
+    return ks
+
+
 PROPS = {
     "C11": {
         "lean_files": ["AriesVerif/C11/Spec.lean", "AriesVerif/C11/Model.lean", "AriesVerif/C11/Props.lean",
@@ -233,5 +241,22 @@ PROPS = {
                 "non-trivial = the mutation applied to an envelope that a recipient could read",
         "trusted_base": ["Tink / go-jose / NaCl / chacha20poly1305 / AES (ideal)", "encoding/base64 decides whether decoded bytes changed"],
         "assumptions": ["the model does not predict fail-vs-same per mutation; the oracle requires fail-or-same, and fail for authenticated fields"],
+    },
+    "C12": {
+        "lean_files": ["AriesVerif/C12/Model.lean", "AriesVerif/C12/Props.lean", "AriesVerif/C12/Drv.lean"],
+        "lake_targets": ["AriesVerif"],
+        "classify": c12_classify,
+        "nontrivial": lambda inp, out: "Put(" in out or "Batch(put" in out,
+        "thorough_seeds": 2,
+        "rule": "C11's operation generator (put / get / gettags / getbulk / query / delete / batch / flush, invalid inputs included) with "
+                "long distinctive plaintexts for keys, values, tag names and tag values, through formattedstore + the real EDV "
+                "EncryptedFormatter (real JWE encrypter, real HMAC key in a harness KMS) over a RECORDING provider, deterministic and "
+                "random document ids, with and without SetStoreConfig; every argument of every provider call is mapped back to a symbolic "
+                "term with the harness's keys and judged by the Lean Opaque predicate; independently every recorded byte string is scanned "
+                "for every plaintext in raw / hex / base58 / base64 / base64url (3 alignments); non-trivial = something was stored",
+        "trusted_base": ["HMAC-SHA256 and the JWE (ideal)", "the harness's recogniser of MACs / document ids / encrypted documents",
+                         "store names (OpenStore / SetStoreConfig first argument) are outside the property as stated"],
+        "assumptions": ["the WithEDVBatchCrypto configuration (outside the stated quantifier) is not driven; its batchFormat returns "
+                        "plaintext tags (DESIGN.md section 8)"],
     },
 }
